@@ -251,3 +251,48 @@ def stable_name(prog, k):
             if kk == k: return '<%s%s>' % (ty, (' as ' + tr) if tr else '')
         return '<impl>'
     return re.sub(r'<impl at [^>]*>', rep, name)
+
+
+# ------------------------------------------------------------------ parallel exploration helpers
+import multiprocessing
+
+class Part:
+    """picklable partial result of a kernel, produced by a worker process"""
+    def __init__(self):
+        self.paths = 0; self.queries = 0; self.solver_s = 0.0; self.nontrivial = 0
+        self.findings = []        # dicts: role, what, witness, replay=(name, args)
+        self.inconclusive = []; self.samples = []; self.encoded = set(); self.models = set(); self.notes = []
+    def inconc(self, r):
+        if r not in self.inconclusive: self.inconclusive.append(r)
+    def add(self, role, what, witness, replay=None):
+        if any(f['role'] == role for f in self.findings): return
+        self.findings.append({'role': role, 'what': what, 'witness': witness, 'replay': replay})
+
+REPLAYS = {}     # name -> factory(*args) -> callable(ctx) -> (reproduced, details)
+def replay_factory(name):
+    def deco(fn): REPLAYS[name] = fn; return fn
+    return deco
+
+def merge_part(kr, part, prog=None):
+    kr.paths += part.paths; kr.queries += part.queries; kr.solver_s += part.solver_s; kr.nontrivial += part.nontrivial
+    for r in part.inconclusive: kr.inconc(r)
+    for s in part.samples:
+        if len(kr.samples) < 6: kr.samples.append(s)
+    kr.notes.extend(part.notes[:3])
+    kr._enc = getattr(kr, '_enc', set()) | part.encoded
+    kr.models = sorted(set(kr.models) | part.models)
+    for f in part.findings:
+        if any(g.role == f['role'] for g in kr.findings): continue
+        rp = None
+        if f.get('replay'):
+            name, args = f['replay']; rp = REPLAYS[name](*args)
+        kr.findings.append(Finding(f['role'], f['what'], f['witness'], replay=rp))
+
+_POOL_CTX = None
+def par_map(fn, jobs, nproc=None):
+    """run fn over jobs in forked worker processes (the loaded MIR program is shared copy-on-write)"""
+    nproc = nproc or min(int(os.environ.get('VERIF_NPROC', '14')), max(1, len(jobs)))
+    if nproc <= 1 or len(jobs) <= 1: return [fn(j) for j in jobs]
+    mp = multiprocessing.get_context('fork')
+    with mp.Pool(nproc) as pool:
+        return pool.map(fn, jobs, chunksize=1)
